@@ -351,18 +351,24 @@ func c12RacePass(total *engine.JobResult) {
 	runs := 0
 	for _, gmp := range []string{"1", "2", "4", "16"} {
 		cmd := exec.Command(bin, "racepass")
-		cmd.Env = append(os.Environ(), "GOMAXPROCS="+gmp, "GORACE=exitcode=66 halt_on_error=1")
+		logp := filepath.Join(engine.Scratch(), "race_report_"+gmp)
+		cmd.Env = append(os.Environ(), "GOMAXPROCS="+gmp, "GORACE=exitcode=66 halt_on_error=1 log_path="+logp)
 		out, err := cmd.CombinedOutput()
 		if err != nil {
-			if strings.Contains(string(out), "WARNING: DATA RACE") {
-				s := string(out)
-				if i := strings.Index(s, "WARNING: DATA RACE"); i >= 0 {
-					s = s[i:]
+			rep := string(out)
+			if fs, _ := filepath.Glob(logp + "*"); len(fs) > 0 {
+				b, _ := os.ReadFile(fs[0])
+				rep = string(b)
+			}
+			ee, isExit := err.(*exec.ExitError)
+			if strings.Contains(rep, "DATA RACE") || (isExit && ee.ExitCode() == 66) {
+				if i := strings.Index(rep, "WARNING: DATA RACE"); i >= 0 {
+					rep = rep[i:]
 				}
-				if len(s) > 3000 {
-					s = s[:3000]
+				if len(rep) > 3000 {
+					rep = rep[:3000]
 				}
-				total.Violate("data-race", "the Go race detector reported a race in a free-running run (GOMAXPROCS="+gmp+"): "+s, map[string]string{"gomaxprocs": gmp, "report": s})
+				total.Violate("data-race", "the Go race detector reported a race in a free-running run (GOMAXPROCS="+gmp+"): "+rep, map[string]string{"gomaxprocs": gmp, "report": rep})
 				return
 			}
 			engine.EngineError("race pass failed: %v: %.500s", err, out)
